@@ -41,7 +41,7 @@ func (releaseComp) Rule() string {
 
 type relVersion struct {
 	size int64
-	time int64 // hours relative to base
+	time int64 // ticks (100 ms) relative to base
 	hash string
 	ok   bool
 }
@@ -112,7 +112,7 @@ func (releaseComp) NewExec() Exec {
 	}
 	e := &relExec{
 		sandbox: sb, root: filepath.Join(sb, "out"), cacheDir: filepath.Join(sb, "cache"),
-		base:    time.Now().Truncate(time.Second),
+		base:    time.Now().Truncate(time.Second).Add(-relMaxTick * relTick), // see relTick
 		pollMax: 2, attempts: 2,
 		declSeen: map[string]bool{}, answers: map[string][]string{}, logged: map[string]bool{},
 		hashTok: map[string]string{}, confirmed: map[string]relVersion{}, vanished: map[string]bool{},
@@ -181,17 +181,81 @@ func (e *relExec) hashOut(h string) string {
 	return esc(h)
 }
 
-func (e *relExec) hours(t time.Time) string {
-	d := t.Sub(e.base)
-	if d%time.Hour != 0 {
-		return fmt.Sprintf("?%d", int64(d))
+// Time in the op grammar of `release` / `recovery`. A time is written `T` (whole hours relative to the
+// case's base instant) or `T+K` (K ticks of 100 ms later, 0 <= K < relMaxTick); the harness and the driver
+// hold it as one integer in ticks (T*36000 + K) and print it as `T` when it is a whole hour, as `T+K`
+// otherwise. Durations (`tag … DELAY`, `restart K`) are whole hours.
+//
+// The real clock: the base instant is 50 minutes before the start of the case (whole second), so the
+// code under test runs strictly between base + relMaxTick ticks and base + 1 h as long as a case takes
+// less than ten minutes. No written time lies in that window (K < relMaxTick), so every comparison
+// of a file time with the current instant (time.Since(t) > delay, modified after the scan start) is
+// decided by the written numbers alone: this is the model's `now` = 1 h = 36000 ticks.
+const (
+	relTick         = 100 * time.Millisecond
+	relTicksPerHour = 36000
+	relMaxTick      = 30000
+)
+
+func relFloorDiv(a, b int64) (q, r int64) {
+	q, r = a/b, a%b
+	if r < 0 {
+		q, r = q-1, r+b
 	}
-	return strconv.FormatInt(int64(d/time.Hour), 10)
+	return
 }
 
-func (e *relExec) hoursInt(t time.Time) int64 { return int64(t.Sub(e.base) / time.Hour) }
+// relParseTime: `T` or `T+K` to ticks.
+func relParseTime(s string) (int64, bool) {
+	p := strings.Split(s, "+")
+	if len(p) > 2 {
+		return 0, false
+	}
+	h, err := strconv.ParseInt(p[0], 10, 64)
+	if err != nil {
+		return 0, false
+	}
+	if len(p) == 1 {
+		return h * relTicksPerHour, true
+	}
+	if p[1] == "" || p[1][0] == '+' || p[1][0] == '-' {
+		return 0, false
+	}
+	k, err := strconv.ParseInt(p[1], 10, 64)
+	if err != nil || k >= relMaxTick {
+		return 0, false
+	}
+	return h*relTicksPerHour + k, true
+}
 
-func (e *relExec) at(h int64) time.Time { return e.base.Add(time.Duration(h) * time.Hour) }
+// relFmtTicks prints ticks the way the driver does.
+func relFmtTicks(t int64) string {
+	h, k := relFloorDiv(t, relTicksPerHour)
+	if k == 0 {
+		return strconv.FormatInt(h, 10)
+	}
+	return fmt.Sprintf("%d+%d", h, k)
+}
+
+// ticks: the instant in ticks relative to base (rounded down) and whether it is a whole tick.
+func (e *relExec) ticks(t time.Time) (int64, bool) {
+	q, r := relFloorDiv(int64(t.Sub(e.base)), int64(relTick))
+	return q, r == 0
+}
+
+func (e *relExec) ticksInt(t time.Time) int64 { q, _ := e.ticks(t); return q }
+
+// hours prints an instant as the grammar writes it; an instant that is not a whole tick (none of the
+// harness' making) prints as `?nanoseconds`.
+func (e *relExec) hours(t time.Time) string {
+	q, exact := e.ticks(t)
+	if !exact {
+		return fmt.Sprintf("?%d", int64(t.Sub(e.base)))
+	}
+	return relFmtTicks(q)
+}
+
+func (e *relExec) at(ticks int64) time.Time { return e.base.Add(time.Duration(ticks) * relTick) }
 
 func (e *relExec) cachePath() string {
 	// cache.NewJSON names the file after the MD5 of the key (= root)
@@ -443,7 +507,7 @@ func (e *relExec) validator(sent []sts.Pollable) ([]sts.Polled, error) {
 		if code == sts.ConfirmPassed || code == sts.ConfirmWaiting {
 			e.positives[f.GetName()] = true
 			if c := e.cache.Get(f.GetName()); c != nil {
-				e.polledVer[f.GetName()] = relVersion{c.GetSize(), e.hoursInt(c.GetTime()), c.GetHash(), true}
+				e.polledVer[f.GetName()] = relVersion{c.GetSize(), e.ticksInt(c.GetTime()), c.GetHash(), true}
 			}
 		}
 		out = append(out, &relPolled{Pollable: f, code: code})
@@ -503,7 +567,7 @@ func (e *relExec) onDone(n string, closure bool) {
 			if v, ok := e.polledVer[n]; ok {
 				e.confirmed[n] = v
 			} else {
-				e.confirmed[n] = relVersion{c.GetSize(), e.hoursInt(c.GetTime()), c.GetHash(), true}
+				e.confirmed[n] = relVersion{c.GetSize(), e.ticksInt(c.GetTime()), c.GetHash(), true}
 			}
 			delete(e.vanished, n)
 			// S2: the receiver's positive answer is about what it holds under that name
@@ -572,9 +636,9 @@ func (e *relExec) onRemove(f sts.File) {
 		}
 		return
 	}
-	if info.Size() != v.size || e.hoursInt(info.ModTime()) != v.time || info.ModTime().Sub(e.base)%time.Hour != 0 {
-		e.failf("delete-unconfirmed: %s deleted while the file on disk (size %d, time %s) is not the confirmed version (size %d, time %d)",
-			n, info.Size(), e.hours(info.ModTime()), v.size, v.time)
+	if tk, exact := e.ticks(info.ModTime()); info.Size() != v.size || tk != v.time || !exact {
+		e.failf("delete-unconfirmed: %s deleted while the file on disk (size %d, time %s) is not the confirmed version (size %d, time %s)",
+			n, info.Size(), e.hours(info.ModTime()), v.size, relFmtTicks(v.time))
 	}
 }
 
@@ -743,7 +807,7 @@ type relSnap struct {
 func (e *relExec) snapCache() map[string]relSnap {
 	m := map[string]relSnap{}
 	e.cache.Iterate(func(c sts.Cached) bool {
-		m[c.GetName()] = relSnap{c.GetSize(), e.hoursInt(c.GetTime()), c.GetHash(), c.IsDone()}
+		m[c.GetName()] = relSnap{c.GetSize(), e.ticksInt(c.GetTime()), c.GetHash(), c.IsDone()}
 		return false
 	})
 	return m
@@ -751,8 +815,8 @@ func (e *relExec) snapCache() map[string]relSnap {
 
 type relDiskFile struct {
 	size int64
-	time int64
-	frac bool
+	time int64 // ticks
+	frac bool  // not a whole tick: no version the grammar can name
 }
 
 func (e *relExec) snapStore() map[string]relDiskFile {
@@ -760,7 +824,8 @@ func (e *relExec) snapStore() map[string]relDiskFile {
 	ents, _ := os.ReadDir(e.root)
 	for _, d := range ents {
 		if info, err := d.Info(); err == nil && !d.IsDir() {
-			m[d.Name()] = relDiskFile{info.Size(), e.hoursInt(info.ModTime()), info.ModTime().Sub(e.base)%time.Hour != 0}
+			tk, exact := e.ticks(info.ModTime())
+			m[d.Name()] = relDiskFile{info.Size(), tk, !exact}
 		}
 	}
 	return m
@@ -1044,7 +1109,7 @@ func (e *relExec) doScan() string {
 	// oracle changed_file_requeued (S3/S18): a file that is not the cached version is queued
 	// and its cache entry describes the new, unconfirmed version
 	for n, f := range disk {
-		if strings.HasPrefix(n, "ign") || f.size == 0 || f.time >= 1 || f.frac {
+		if strings.HasPrefix(n, "ign") || f.size == 0 || f.time >= relTicksPerHour || f.frac {
 			continue
 		}
 		c, cached := before[n]
@@ -1052,7 +1117,7 @@ func (e *relExec) doScan() string {
 			continue
 		}
 		if !readyNames[n] {
-			e.failf("changed-file-lost: %s on disk (size %d, time %d) is not the cached version but the scan did not queue it", n, f.size, f.time)
+			e.failf("changed-file-lost: %s on disk (size %d, time %s) is not the cached version but the scan did not queue it", n, f.size, relFmtTicks(f.time))
 			continue
 		}
 		a, ok := after[n]
@@ -1381,7 +1446,7 @@ func (e *relExec) Do(op []string) string {
 		return "ok"
 	case len(op) == 6 && op[0] == "cache":
 		size, ok1 := atoi(op[2])
-		t, ok2 := atoi(op[3])
+		t, ok2 := relParseTime(op[3])
 		done, ok3 := bit(op[5])
 		if !ok1 || !ok2 || !ok3 || e.started || !relValidName(op[1]) || e.declSeen[op[1]] {
 			return "bad-op"
@@ -1396,7 +1461,7 @@ func (e *relExec) Do(op []string) string {
 		return "ok"
 	case len(op) == 5 && op[0] == "file":
 		size, ok1 := natural(op[2])
-		t, ok2 := atoi(op[3])
+		t, ok2 := relParseTime(op[3])
 		if !ok1 || !ok2 || !relValidName(op[1]) || !relValidName(op[4]) || size > 1<<20 {
 			return "bad-op"
 		}
@@ -1408,6 +1473,11 @@ func (e *relExec) Do(op []string) string {
 		}
 		if err := os.Chtimes(p, e.at(t), e.at(t)); err != nil {
 			panic(err)
+		}
+		// the scratch file system must keep the 100 ms part (tmpfs, ext4, xfs do; a 1 s or 2 s
+		// file system would silently turn `T+K` into `T`)
+		if fi, err := os.Lstat(p); err != nil || !fi.ModTime().Equal(e.at(t)) {
+			panic(fmt.Sprintf("release harness: the file system under %s does not keep the modification time %s it was given", e.sandbox, relFmtTicks(t)))
 		}
 		return "ok"
 	case len(op) == 2 && op[0] == "rmfile":
@@ -1529,7 +1599,7 @@ func (e *relExec) doRestart(k int64) {
 		}
 	}
 	for n, v := range e.confirmed {
-		v.time -= k
+		v.time -= k * relTicksPerHour
 		e.confirmed[n] = v
 	}
 	e.loadCache()
